@@ -108,6 +108,7 @@ def run(ctx):
         prog = ctx.prog(cfg)
         mod = ctx.mod(cfg)
         _fieldcover(ctx, cfg, prog, mod)
+        _fieldkeep(ctx, cfg, prog, mod)
         _gates(ctx, cfg, prog, mod)
     return ctx.finish(EXPLANATION)
 
@@ -193,6 +194,74 @@ def _fieldcover(ctx, cfg, prog, mod):
             ctx.sample({'rule': 'FIELDCOVER', 'adt': adt, 'fields': fields, 'written': written,
                         'sequence_fields': sorted(seq_fields & set(fields)), 'reader_names': sorted(de_names)})
     ctx.floor('FIELDCOVER ADTs', 4, len([a for a in ADTS if a in prog.adts]), cfg)
+
+
+ELEMENT_TYPES = {'core::cell::Cell': 'core::cell::Cell<', 'core::vertex::Vertex': 'core::vertex::Vertex<'}
+
+
+def _fieldkeep(ctx, cfg, prog, mod):
+    """FIELDKEEP: between reading the elements from the input and returning the Tds, the visitor may
+    only write the element fields that are *reconstructed* (skip table); overwriting a whole element
+    or one of its serialised fields silently discards what was just read."""
+    ctx.rule('FIELDKEEP', 'the Tds visitor writes only reconstructed element fields (never a whole element or a serialised field)')
+    vm = _visit_map(prog, TDS)
+    if vm is None:
+        return
+    bodies = [vm] + [prog.bodies[c] for c in prog.children.get(vm.q, []) if c in prog.bodies]
+    n = 0
+    bad = []
+    for b in bodies:
+        al = mod.aliases(b.q)
+
+        def judge(root, fields, what, line):
+            nonlocal n
+            if '[]' not in fields:
+                return
+            i = fields.index('[]')
+            # which element type? decided by the map the path goes through
+            owner_ty = b.locals[root] if root < len(b.locals) else ''
+            before = fields[:i]
+            adt = None
+            if 'cells' in before or ELEMENT_TYPES['core::cell::Cell'] in owner_ty:
+                adt = 'core::cell::Cell'
+            elif 'vertices' in before or ELEMENT_TYPES['core::vertex::Vertex'] in owner_ty:
+                adt = 'core::vertex::Vertex'
+            if adt is None:
+                return
+            n += 1
+            sub = fields[i + 1:]
+            skip = ADTS[adt]
+            if not sub:
+                bad.append((adt, '(whole element)', what, line, b))
+            elif sub[0] not in skip and sub[0] != '[]':
+                bad.append((adt, sub[0], what, line, b))
+
+        for blk in b.blocks:
+            if blk.cleanup:
+                continue
+            for st in blk.stmts:
+                root, fields, derefd = al.norm(st.place)
+                if derefd:
+                    judge(root, fields, 'assignment', st.line)
+            t = blk.term
+            if t.k == 'call':
+                for i_, o in enumerate(t.args):
+                    tt = al.operand_target(o)
+                    if tt is None or not tt[2]:
+                        continue
+                    for cp in mod.callee_mod(t, i_, b):
+                        judge(tt[0], tt[1] + cp, 'call ' + (t.resolved or t.callee or '?'), t.line)
+    keys = set()
+    for (adt, fld, what, line, b) in bad:
+        key = '%s|%s' % (adt, fld)
+        if key in keys:
+            continue
+        keys.add(key)
+        ctx.ob('FIELDKEEP', key, cfg, False,
+               'the Tds deserialiser overwrites %s of a %s it has just read (%s): the serialised value is discarded' % (
+                   fld, adt.rsplit('::', 1)[-1], what), site='%s:%d' % (b.file, line))
+    ctx.ob('FIELDKEEP', 'scan', cfg, True, 'element writes examined in the Tds visitor: %d; offending: %d' % (n, len(bad)))
+    ctx.floor('element writes in the Tds visitor (vertex-key rebuild, neighbour / incidence rebuild)', 2, n, cfg)
 
 
 def _visit_map(prog, adt):
